@@ -2439,6 +2439,90 @@ class _Rename(ast.NodeTransformer):
         return n
 
 
+def _truth_flags(fn, params):
+    """local names that are only ever bound to a literal 0 / 1 / False / True by a plain assignment and only ever read for their truth
+    value (operand of `not`, test of if / while / conditional expression): whether the literal is spelled as int or bool is immaterial"""
+    pm = _parent_map(fn)
+    good, bad = set(), set(params)
+    for x in ast.walk(fn):
+        if isinstance(x, (ast.Global, ast.Nonlocal)):
+            bad |= set(x.names)
+        if not isinstance(x, ast.Name):
+            continue
+        par = pm.get(id(x))
+        if isinstance(x.ctx, ast.Store):
+            if isinstance(par, ast.Assign) and len(par.targets) == 1 and par.targets[0] is x and isinstance(par.value, ast.Constant) \
+                    and type(par.value.value) in (int, bool) and par.value.value in (0, 1):
+                good.add(x.id)
+            else:
+                bad.add(x.id)
+        elif isinstance(x.ctx, ast.Load):
+            if not ((isinstance(par, ast.UnaryOp) and isinstance(par.op, ast.Not)) or (isinstance(par, (ast.If, ast.While, ast.IfExp)) and par.test is x)):
+                bad.add(x.id)
+        else:
+            bad.add(x.id)
+    return good - bad
+
+
+class _Canon(ast.NodeTransformer):
+    """one spelling for equivalent statements over integer cursors and array elements of a partition skeleton"""
+    def __init__(self, flags):
+        self.flags = flags
+
+    def visit_AugAssign(self, n):
+        self.generic_visit(n)
+        if isinstance(n.target, ast.Name):
+            v = ast.BinOp(left=ast.Name(id=n.target.id, ctx=ast.Load()), op=n.op, right=n.value)
+            return ast.copy_location(ast.Assign(targets=[n.target], value=self._commute(v)), n)
+        return n
+
+    def visit_Assign(self, n):
+        self.generic_visit(n)
+        if len(n.targets) == 1 and isinstance(n.targets[0], ast.Name) and n.targets[0].id in self.flags and isinstance(n.value, ast.Constant):
+            n.value = ast.copy_location(ast.Constant(value=bool(n.value.value)), n.value)
+        return n
+
+    def visit_Compare(self, n):
+        self.generic_visit(n)
+        if len(n.ops) == 1 and isinstance(n.ops[0], (ast.Gt, ast.GtE)):
+            op = ast.Lt() if isinstance(n.ops[0], ast.Gt) else ast.LtE()
+            return ast.copy_location(ast.Compare(left=n.comparators[0], ops=[op], comparators=[n.left]), n)
+        return n
+
+    def _commute(self, n):
+        def lit(x):
+            return isinstance(x, ast.Constant) and type(x.value) is int
+        if isinstance(n.op, ast.Add) and lit(n.left) and not lit(n.right):
+            n.left, n.right = n.right, n.left
+        return n
+
+    def visit_BinOp(self, n):
+        self.generic_visit(n)
+        return self._commute(n)
+
+
+def _skeleton(fn, params):
+    """the body of a function in a canonical spelling, as text: parameters named by position, locals by the order in which they are
+    first bound, and the idioms of _Canon in one form.  Two functions with the same skeleton run the same statements on the same values"""
+    fn = copy.deepcopy(fn)
+    if any(isinstance(x, (ast.Global, ast.Nonlocal)) for x in ast.walk(fn)) or _has_nested(fn):
+        return object()                 # equal to nothing
+    fn = _Canon(_truth_flags(fn, params)).visit(fn)
+    ast.fix_missing_locations(fn)
+    m = {p_: "$p%d" % k for k, p_ in enumerate(params)}
+    order = []
+
+    class first_bindings(ast.NodeVisitor):
+        def visit_Name(self, x):
+            if isinstance(x.ctx, ast.Store) and x.id not in m and x.id not in order:
+                order.append(x.id)
+    first_bindings().visit(fn)
+    for k, x in enumerate(order):
+        m[x] = "$v%d" % k
+    fn = _Rename(m).visit(fn)
+    return [ast.dump(x) for x in fn.body if not _isdoc(x)]
+
+
 def keyvalue(chk, repo):
     pk0 = repo.func("esutil.algorithm.partition_keyvalue")
     pp0 = repo.func("esutil.algorithm.partition")
@@ -2506,6 +2590,12 @@ def keyvalue(chk, repo):
     a.body = strip_vals(a.body)
     a = _Rename({keys: pp.params[0]}).visit(a)
     same = [ast.dump(x) for x in a.body if not _isdoc(x)] == [ast.dump(x) for x in pp.node.body if not _isdoc(x)]
+    if not same:
+        # the same comparison on one canonical spelling of both skeletons (see _skeleton): parameters by position, locals by order of
+        # first binding, `x op= e` as `x = x op e`, `a > b` as `b < a`, `1 + x` as `x + 1`, a flag that is only ever tested set to a bool
+        kparams = [p_ for p_ in pk.params if p_ != vals]
+        if len(kparams) == len(pp.params):
+            same = _skeleton(a, [pp.params[0]] + kparams[1:]) == _skeleton(pp.node, pp.params)
     chk.ob("R20.kv", "partition-siblings-agree", same, pk.where(), "partition_keyvalue minus its value stores is the plain partition (comparisons, cursor moves and exits agree)")
     # recursion wrappers
     for q2, part, nargs in (("esutil.algorithm._quicksort", "partition", 1), ("esutil.algorithm._quicksort_keyvalue", "partition_keyvalue", 2)):
@@ -4331,6 +4421,11 @@ class _IsplitEval(_Sx):
             n = self.ev(st.iter.args[-1])
             if self.scalar(n) and self._for_range(st, n):
                 return
+        if isinstance(st, ast.For) and not st.orelse and self.loop is None \
+                and not any(isinstance(x, (ast.Break, ast.Continue, ast.For, ast.While, ast.Return, ast.Try, ast.Raise, ast.With)) for b in st.body for x in ast.walk(b)):
+            hd = self._zip_header(st)
+            if hd is not None and self._for_range(st, hd[1], hd[0], hd[2]):
+                return
         if isinstance(st, ast.If) and not st.orelse and st.body and isinstance(st.body[-1], ast.Raise):
             return                 # a rejection guard leaves the state of the continuing path unchanged
         if isinstance(st, ast.If) and self._if_names(st):
@@ -4399,14 +4494,78 @@ class _IsplitEval(_Sx):
         o.carried = dict(self.carried)
         return o
 
-    def _for_range(self, st, n):
+    def _window(self, v):
+        """(sequence, first position, number of elements) of a division-point sequence or a slice of it with literal bounds (counted
+        from the front for the lower, from the back for the upper bound); the count is exact when it is not negative, which the
+        comparison with the positive number of table rows establishes.  None: not of that form"""
+        if isinstance(v, (_Cum, _Seq)):
+            base, lo, hi = v, None, None
+        elif isinstance(v, _Shift) and isinstance(v.cum, (_Cum, _Seq)):
+            base, lo, hi = v.cum, v.lo, v.hi
+        else:
+            return None
+        ln = base.n if isinstance(base, _Seq) else _total(base.segs)
+        lo = sp.Integer(0) if lo is None else lo
+        if not (self.scalar(lo) and lo.is_Integer and lo >= 0):
+            return None
+        if hi is None:
+            hi = ln
+        elif self.scalar(hi) and hi.is_Integer and hi < 0:
+            hi = ln + hi
+        else:
+            return None
+        return base, lo, sp.expand(hi - lo)
+
+    def _zip_header(self, st):
+        """`for [i,] x[, y ...] in [enumerate(] S | zip(S, T, ...) [)]` over division-point sequences (or slices of them) of one length n:
+        (name of the round number, n, {name: its value in round i, an element of the sequence}).  None: not of that form"""
+        it, tgt = st.iter, st.target
+        idx = None
+        if isinstance(it, ast.Call) and isinstance(it.func, ast.Name) and it.func.id == "enumerate" and len(it.args) == 1 \
+                and all(k.arg == "start" and norm(k.value) == "0" for k in it.keywords):
+            if not (isinstance(tgt, (ast.Tuple, ast.List)) and len(tgt.elts) == 2 and isinstance(tgt.elts[0], ast.Name)):
+                return None
+            idx, it, tgt = tgt.elts[0].id, it.args[0], tgt.elts[1]
+        if isinstance(it, ast.Call) and isinstance(it.func, ast.Name) and it.func.id == "zip":
+            if it.keywords or not it.args or any(isinstance(a, ast.Starred) for a in it.args):
+                return None
+            if not (isinstance(tgt, (ast.Tuple, ast.List)) and len(tgt.elts) == len(it.args)):
+                return None
+            srcs, tgts = list(it.args), list(tgt.elts)
+        else:
+            srcs, tgts = [it], [tgt]
+        if not all(isinstance(t, ast.Name) for t in tgts):
+            return None
+        names = [t.id for t in tgts] + ([idx] if idx is not None else [])
+        if len(set(names)) != len(names):
+            return None
+        if idx is None:
+            idx = "$round"
+        i = self.sym(idx)
+        n, binds = None, {}
+        for t, src in zip(tgts, srcs):
+            w = self._window(self.ev(src))
+            if w is None:
+                return None
+            base, lo, ln = w
+            if n is None:
+                n = ln
+            elif _teq(n, ln) is not True:
+                return None             # zip stops at the shortest: not followed
+            binds[t.id] = _Elem(base, sp.expand(lo + i))
+        return idx, n, binds
+
+    def _for_range(self, st, n, idx=None, binds=None):
         """`for i in range(n)` with a straight-line body.  A name the body reads before it binds it is carried from one round to the
         next: with A its value as round i begins, the body is evaluated once to find its value A + d(i) as the round ends; the
         values A takes are then init, init + d(0), init + d(0) + d(1), ...: the cumulative sums of the runs of d led by init, and
         inside the round A is element i of that sequence, A + d(i) element i + 1.  False: not followed (nothing was done)"""
-        i = self.sym(st.target.id)
+        if idx is None:
+            idx = st.target.id
+        binds = dict(binds or {})      # names the loop header binds to an element of a sequence in round i (see _zip_header)
+        i = self.sym(idx)
         stored = {x.id for b in st.body for x in ast.walk(b) if isinstance(x, ast.Name) and isinstance(x.ctx, (ast.Store, ast.Del))}
-        if st.target.id in stored:
+        if idx in stored or any(b in stored for b in binds):
             return False
         bound, carried = set(), []
         for b in st.body:
@@ -4423,7 +4582,8 @@ class _IsplitEval(_Sx):
             syms = {c: sp.Symbol("@" + c, integer=True) for c in carried}
             sc = self._scratch()
             sc.loop = (i, n)
-            sc.env.pop(st.target.id, None)
+            sc.env.pop(idx, None)
+            sc.env.update(binds)
             for c, a in syms.items():
                 sc.env[c] = a
             sc.run(st.body)
@@ -4446,13 +4606,14 @@ class _IsplitEval(_Sx):
             for c, a in syms.items():
                 self.env[c] = a
         self.loop = (i, n)
-        self.env.pop(st.target.id, None)
+        self.env.pop(idx, None)
+        self.env.update(binds)
         self.run(st.body)
         self.loop = None
         for a in syms.values():
             self.carried.pop(a, None)
         # what a name bound in the body holds after the last round is not needed (and not known when there is no round at all)
-        for x in stored:
+        for x in list(stored) + list(binds):
             self.env[x] = None
         return True
 
